@@ -154,6 +154,20 @@ let run_split (args : (string * string) list) : string =
            if op = "ipl_cp" then add "boundsgiven" (ok (bounds = Some given_cuts))
          | _ -> ())
       end;
+      (* the cursor model of ArcListGraph's lender, part by part *)
+      if get args "impl" = "Left<ArcListGraph>" && op = "at" && legal then begin
+        let g = graph_of args "g0" in
+        let arcs = List.concat (List.mapi (fun x l -> List.map (fun y -> (n_of_int x, y)) l) g) in
+        let nn = n_of_int n in
+        let rec go = function
+          | a :: ((b :: _) as rest) ->
+            (match al_skip (nat_of_int a) nn { al_node = N0; al_arcs = arcs } with
+             | Some st -> part_of_lender (al_collect (nat_of_int (b - a)) nn st) :: go rest
+             | None -> [])
+          | _ -> [] in
+        let mps = go given_cuts in
+        add "malist" (okd (mps = parts) ("model:" ^ trunc (show_parts mps)))
+      end;
       if not sorted_shape then begin
         (match mres with
          | Parts mps ->
